@@ -127,6 +127,9 @@ func (g *Gen) call(fr *Frame, st *State, site ssa.Instruction, c *ssa.CallCommon
 		penv := g.bindParams(fr, st, fc, key, fn, sig, args, c.IsInvoke())
 		g.callSiteClauses(fr, st, site, c, key, ord, args, penv, sig, fn, r)
 		res := g.applyContract(fr, st, site, fc, key, ord, penv, resT, args, r)
+		if (fc.Assumed && (fn == nil || !g.isRepoPkg(pkgOfFn(fn)))) || (fn != nil && g.otherPackage(fr, fn)) {
+			g.externalErrorFacts(fr, st, res, resT)
+		}
 		return mkRes(res)
 	}
 	g.callSiteClauses(fr, st, site, c, key, ord, args, nil, sig, fn, r)
@@ -180,6 +183,9 @@ func (g *Gen) call(fr *Frame, st *State, site ssa.Instruction, c *ssa.CallCommon
 	var fresh []Val
 	for i := 0; i < resT.Len(); i++ {
 		fresh = append(fresh, g.freshVal(fr.id+"call_"+lastPart(key), resT.At(i).Type()))
+	}
+	if fn == nil || !g.isRepoPkg(pkgOfFn(fn)) {
+		g.externalErrorFacts(fr, st, fresh, resT)
 	}
 	return mkRes(fresh)
 }
@@ -594,6 +600,11 @@ func (g *Gen) callSiteClauses(fr *Frame, st *State, site ssa.Instruction, c *ssa
 		}
 		v, err := g.evalBool(cl.Expr, env)
 		if err != nil {
+			if lv, ok := g.evalLenient(cl.Expr, env, true); ok {
+				v, err = lv, nil
+			}
+		}
+		if err != nil {
 			g.contractError(cl, fmt.Errorf("at call %s#%d in %s: %v", key, ord, fr.topKey(), err))
 			continue
 		}
@@ -934,4 +945,45 @@ func fieldElemOrigin(v ssa.Value, depth int) string {
 		}
 	}
 	return ""
+}
+
+// externalErrorFacts: an error produced by code outside the module never is (errors.Is) one of the module's
+// sentinel error variables, which external code cannot name.
+func (g *Gen) externalErrorFacts(fr *Frame, st *State, res []Val, resT *types.Tuple) {
+	if g.dry > 0 {
+		return
+	}
+	top := fr
+	for top.parent != nil {
+		top = top.parent
+	}
+	p := pkgOfFn(top.fn)
+	if p == nil {
+		return
+	}
+	errT := types.Universe.Lookup("error").Type()
+	for i := 0; i < resT.Len() && i < len(res); i++ {
+		if !types.Identical(resT.At(i).Type(), errT) {
+			continue
+		}
+		for _, name := range p.Scope().Names() {
+			v, ok := p.Scope().Lookup(name).(*types.Var)
+			if !ok || !types.Identical(v.Type(), errT) {
+				continue
+			}
+			sv := g.loadPtr(st, &Ptr{Kind: pGlobal, Cell: "G$" + pkgName(p) + "." + v.Name(), Ty: v.Type()})
+			g.declIs()
+			g.vc.assume("", fmt.Sprintf("(and (not (= %s %s)) (not (p$Is %s %s)))", res[i].T, sv.T, res[i].T, sv.T))
+		}
+	}
+}
+
+// otherPackage: the callee lives in a different package than the function under verification.
+func (g *Gen) otherPackage(fr *Frame, fn *ssa.Function) bool {
+	top := fr
+	for top.parent != nil {
+		top = top.parent
+	}
+	a, b := pkgOfFn(top.fn), pkgOfFn(fn)
+	return a != nil && b != nil && a != b
 }
